@@ -124,6 +124,8 @@ type sibCase struct {
 	Facts []map[string]sval `json:"facts"`
 	Want1 []sibWant         `json:"want1"`
 	Want2 []sibWant         `json:"want2"`
+	Mut1  []sibWant         `json:"wantMut1"`
+	Mut2  []sibWant         `json:"wantMut2"`
 }
 
 type SibFact struct {
@@ -164,6 +166,8 @@ func sibRule(name string, key int, c, a *sterm, stores sval) string {
 	return fmt.Sprintf(`rule %s { when %s then F.%s(%d, %s); Retract("%s"); }`, name, c.grl(), put, key, a.grl(), name)
 }
 
+const mutRule = `rule ZM salience 100 { when F.X != F.Y then F.X = F.Y; }`
+
 const fillers = `rule ZA salience -5 { when F.X > 1000 && F.B then F.PutI(90, F.X + 1); Retract("ZA"); }
 rule ZB salience 7 { when F.S == "never-ever" || F.Y < -1000 then F.PutS(91, F.S + F.T); Retract("ZB"); }`
 
@@ -202,22 +206,31 @@ func cmdSibReplay(args []string) {
 			has1      bool
 			has2      bool
 			reload    bool
+			mut       bool // a rule of another resource changes F.X in the first cycle: the stores must be those of the changed facts
 		}
-		cfgs := []cfg{{"S1 alone", []string{r1}, true, false, false}, {"S2 alone", []string{r2}, false, true, false},
-			{"S1 then S2", []string{r1 + "\n" + r2}, true, true, false}, {"S2 then S1", []string{r2 + "\n" + r1}, true, true, false},
-			{"two resources", []string{r1, r2}, true, true, false}, {"two resources reversed", []string{r2, r1}, true, true, false},
-			{"among other rules", []string{fillers, r2 + "\n" + r1}, true, true, false},
-			{"S1 alone, stored and loaded", []string{r1}, true, false, true},
-			{"S1 then S2, stored and loaded", []string{r1 + "\n" + r2}, true, true, true},
-			{"among other rules, stored and loaded", []string{fillers, r2, r1}, true, true, true}}
+		cfgs := []cfg{{"S1 alone", []string{r1}, true, false, false, false}, {"S2 alone", []string{r2}, false, true, false, false},
+			{"S1 then S2", []string{r1 + "\n" + r2}, true, true, false, false}, {"S2 then S1", []string{r2 + "\n" + r1}, true, true, false, false},
+			{"two resources", []string{r1, r2}, true, true, false, false}, {"two resources reversed", []string{r2, r1}, true, true, false, false},
+			{"among other rules", []string{fillers, r2 + "\n" + r1}, true, true, false, false},
+			{"S1 alone, stored and loaded", []string{r1}, true, false, true, false},
+			{"S1 then S2, stored and loaded", []string{r1 + "\n" + r2}, true, true, true, false},
+			{"among other rules, stored and loaded", []string{fillers, r2, r1}, true, true, true, false},
+			{"facts change while running", []string{mutRule, r1, r2}, true, true, false, true},
+			{"facts change while running, stored and loaded", []string{mutRule + "\n" + fillers, r2, r1}, true, true, true, true}}
 		report := func(cf cfg, fi int, what string, want, got interface{}) {
 			bad++
 			b, _ := json.Marshal(J{"line": raw, "fam": c.Fam, "config": cf.name, "fact": fi, "what": what, "want": want, "got": got, "s1": r1, "s2": r2})
 			w.Write(b)
 			w.WriteByte('\n')
 		}
+		// what a rule reads through the result of a method call is outside the working memory's sight (the rule author's Forget /
+		// Changed duty, DESIGN.md 2.4): such pairs are not run against a rule that assigns the fact behind their back
+		throughCalls := strings.Contains(r1+r2, "().") || strings.Contains(r1+r2, "()[")
 	nextCfg:
 		for _, cf := range cfgs {
+			if cf.mut && throughCalls {
+				continue
+			}
 			lib := ast.NewKnowledgeLibrary()
 			rb := builder.NewRuleBuilder(lib)
 			builds++
@@ -263,12 +276,12 @@ func cmdSibReplay(args []string) {
 					report(cf, fi, "execute", "no error", err.Error())
 					continue
 				}
-				check := func(name string, key int64, has bool, want sibWant) {
+				check := func(name string, key int64, has bool, before, want sibWant) {
 					if !has {
 						return
 					}
-					if matched[name] != want.Holds {
-						report(cf, fi, name+" matches", want.Holds, matched[name])
+					if matched[name] != before.Holds {
+						report(cf, fi, name+" matches", before.Holds, matched[name])
 						return
 					}
 					if !want.Holds {
@@ -295,8 +308,13 @@ func cmdSibReplay(args []string) {
 						}
 					}
 				}
-				check("S1", 1, cf.has1, c.Want1[fi])
-				check("S2", 2, cf.has2, c.Want2[fi])
+				if cf.mut {
+					check("S1", 1, cf.has1, c.Want1[fi], c.Mut1[fi])
+					check("S2", 2, cf.has2, c.Want2[fi], c.Mut2[fi])
+				} else {
+					check("S1", 1, cf.has1, c.Want1[fi], c.Want1[fi])
+					check("S2", 2, cf.has2, c.Want2[fi], c.Want2[fi])
+				}
 			}
 		}
 	}
